@@ -1009,7 +1009,7 @@ def execute(scn, ctx):
                 except Exception as e:  # noqa: BLE001
                     viol.append({"invariant": "C10.shape_law", "tags": tags, "detail": f"{op['name']}() raised {type(e).__name__} while as_dict=True succeeded [op {step}]"})
             # vectorised ConfusionMatrix metric vs the metric of one stacked matrix
-            if k == "cm_metric" and not op.get("as_dict") and o.matrix.ndim > 2 and o.matrix.size and o.binary:
+            if k == "cm_metric" and not op.get("as_dict") and o.matrix.ndim > 2 and o.matrix.size:
                 Xm = o.matrix.shape[:-2]
                 idx = np.unravel_index(op.get("which", step) % int(np.prod(Xm)), Xm)
                 try:
